@@ -119,7 +119,8 @@ def gen_x(rng):
              "med": rng.choice([None, 0, 5]), "lp": rng.choice([None, 100, 200]),
              "orig": rng.choice([None, None, 151587081]), "cl": rng.choice([None, None, [134744072], [134744072, 117901063]]),
              "unk": sorted(set(rng.sample([(200, 192), (201, 128), (202, 64), (203, 0), (204, 224), (205, 160)], rng.choice([0, 0, 1, 2, 3]))))}
-    return {"g": (gas, 16843009, members), "peer": ("e" if ebgp else "i", pas, las, int(rrc), int(rs), rm), "src": (int(local), 167772161 + rng.randrange(3)), "attrs": attrs}
+    rep = int(ebgp and rng.random() < 0.3)          # replace-peer-as (the peer's AS occurs in the generated paths)
+    return {"g": (gas, 16843009, members), "peer": ("e" if ebgp else "i", pas, las, int(rrc), int(rs), rm, rep), "src": (int(local), 167772161 + rng.randrange(3)), "attrs": attrs}
 
 
 def x_line(c):
@@ -132,7 +133,7 @@ def x_line(c):
     unk = "(unk" + "".join(" (%d %d)" % u for u in a["unk"]) + ")"
     at = "(%d %s %d %s %s %s %s %s)" % (a["origin"], path, a["nh"], o(a["med"]), o(a["lp"]), o(a["orig"]), cl, unk)
     g, p, s_ = c["g"], c["peer"], c["src"]
-    return "upa (g %d %d (%s)) (peer %s %d %d %d %d %d) (path %d %d %s)" % (g[0], g[1], " ".join(map(str, g[2])), p[0], p[1], p[2], p[3], p[4], p[5], s_[0], s_[1], at)
+    return "upa (g %d %d (%s)) (peer %s %d %d %d %d %d %d) (path %d %d %s)" % (g[0], g[1], " ".join(map(str, g[2])), p[0], p[1], p[2], p[3], p[4], p[5], p[6], s_[0], s_[1], at)
 
 
 def parse_xattrs(n):
@@ -150,10 +151,12 @@ def x_oracle(c, out):
     items = simlib.parse_sx(out[3:])
     cp, stored = parse_xattrs(items[0]), parse_xattrs(items[1])
     a = c["attrs"]
-    typ, pas, las, rrc, rs, rm = c["peer"]
+    typ, pas, las, rrc, rs, rm, rep = c["peer"]
     local = c["src"][0] == 1
     gas, gid, members = c["g"]
     if rs:
+        if rep:
+            return None       # a route-server client with replace-peer-as: the replaced route, otherwise unchanged (compared with the model only)
         return None if cp == stored else ("rs-client-changed", "route-server client copy differs from the stored route: %s" % out[:200])
     flat = lambda p: [x for _, l in (p or []) for x in l]
     if any(not (f & 64) for _, f in cp["unk"]):
@@ -163,6 +166,8 @@ def x_oracle(c, out):
     if typ == "e":
         member = pas in members
         base = a["path"] or []
+        if rep:
+            base = [(t, [las if x == pas else x for x in l]) for t, l in base]
         if rm == 1:
             base = [(t, [x for x in l if not is_private(x)]) for t, l in base]
         elif rm == 2:
